@@ -289,7 +289,7 @@ func readByteOrderType(r io.Reader, buf []byte) (byteOrder, uint32, int, error) 
 	} else if buf[0] == 1 {
 		order = littleEndian
 	} else {
-		return 0, 0, 0, ErrNotWKB
+		return 0, 0, 0, ErrNotWKBHeader
 	}
 
 	// the type which is 4 bytes
